@@ -201,7 +201,7 @@ class Loop:
         # the per-iteration obligations speak about the passes that happen; that the loop is not
         # left early (break / return from the body) is an obligation of its own unless the
         # contract says leaving early is part of the function (and then says what that means
-        # in its postconditions)
+        # in its postconditions); True, or only 'return' / only 'break'
         self.early_exit = early_exit
         self.defined_by_pass = ()
         self.inv = inv
@@ -457,12 +457,12 @@ class Loop:
                                 eng.oblige(st3, 'loop%d.variant' % ordinal, 'variant',
                                            z3.And(var0 >= 0, v1 < var0), s)
                         elif bo[0] == 'break':
-                            if not self.early_exit:
+                            if self.early_exit not in (True, 'break'):
                                 eng.oblige(bo[1], 'loop%d.not-left-early' % ordinal, 'not-left-early',
                                            z3.BoolVal(False), s)
                             outs.append(('next', bo[1]))
                         else:
-                            if bo[0] == 'ret' and not self.early_exit:
+                            if bo[0] == 'ret' and self.early_exit not in (True, 'return'):
                                 eng.oblige(bo[1], 'loop%d.not-left-early' % ordinal, 'not-left-early',
                                            z3.BoolVal(False), s)
                             outs.append(bo)
